@@ -63,6 +63,9 @@ Inductive case : Type :=
 (* StitchFITEntries(file, acm, bpm, km): error?, length and differences of the file afterwards *)
 | CStitch (l : layout) (img : list piece) (fit : option (list fit_entry)) (acm bpm km : list Z)
           (ok : bool) (len_after : Z) (diffs : list (Z * list Z))
+(* the same with the new ACM and the differences run-length encoded (ACMs of 256 KiB and more) *)
+| CStitchP (l : layout) (img : list piece) (fit : option (list fit_entry)) (acm : list piece) (bpm km : list Z)
+           (ok : bool) (len_after : Z) (diffs : list (Z * list piece))
 (* a sequence of calls on ONE BootGuard object (manifest generation ver) that starts with the
    given segment lists (one per SE element) and digest algorithms; every step: the call, what
    it returned, and the object afterwards (segment lists, digest list as fingerprints of the
@@ -73,6 +76,7 @@ Inductive case : Type :=
 with cop : Type :=
 | KSetSegs (se : Z) (segs : list segment)
 | KSetAlgs (algs : list Z)
+| KEditDigs (es : list dig_edit)
 | KCreateSegs (se flags : Z) (fit : option (list fit_entry)) (r : obs unit)
 | KCreateSegsCbfs (se flags file_size cbfs_off : Z) (files : list cbfs_file) (r : obs unit)
 | KGetDigest (alg : Z) (img : nat) (r : obs (Z * Z))
@@ -85,15 +89,17 @@ with snapshot : Type :=
 Definition map_outcome {A B} (f : A -> B) (o : outcome A) : outcome B :=
   match o with Ok a => Ok (f a) | Err c => Err c | Panic => Panic | OutOfFuel => OutOfFuel end.
 
-(** fingerprint of a stored digest: (-1, 0) for a buffer the model did not produce *)
-Definition fp_stored (d : option (list Z)) : Z * Z :=
-  match d with Some p => fp p | None => (-1, 0) end.
+(** fingerprint of a stored digest: (-1, 0) for a buffer that does not hold a digest, under the
+    entry's algorithm, of bytes the model knows (empty, caller-provided bytes, a digest kept
+    from another algorithm) *)
+Definition fp_stored (a : Z) (d : stored) : Z * Z :=
+  match d with Some (x, p) => if x =? a then fp p else (-1, 0) | None => (-1, 0) end.
 
 Definition snap_ok (s : snapshot) (st : bg_state) : bool :=
   match s with
   | Snap segs digs =>
       list_eqb (list_eqb seg_eqb) segs (bg_segs st) &&
-      list_eqb afp_eqb digs (map (fun ad => (fst ad, fp_stored (snd ad))) (bg_digs st))
+      list_eqb afp_eqb digs (map (fun ad => (fst ad, fp_stored (fst ad) (snd ad))) (bg_digs st))
   end.
 
 Definition unit_eqb (a b : unit) : bool := true.
@@ -105,6 +111,7 @@ Definition cop_op (imgs : list (layout * list Z)) (k : cop) : op :=
   match k with
   | KSetSegs i s => OSetSegs i s
   | KSetAlgs a => OSetAlgs a
+  | KEditDigs es => OEditDigs es
   | KCreateSegs i f fit _ => OCreateSegs i f fit
   | KCreateSegsCbfs i f fs co files _ => OCreateSegsCbfs i f fs co files
   | KGetDigest alg n _ => OGetDigest alg (fst (image_at imgs n)) (snd (image_at imgs n))
@@ -114,7 +121,7 @@ Definition cop_op (imgs : list (layout * list Z)) (k : cop) : op :=
 
 Definition result_ok (k : cop) (r : result) : bool :=
   match k, r with
-  | KSetSegs _ _, RNone | KSetAlgs _, RNone => true
+  | KSetSegs _ _, RNone | KSetAlgs _, RNone | KEditDigs _, RNone => true
   | KCreateSegs _ _ _ o, RUnit m | KCreateSegsCbfs _ _ _ _ _ o, RUnit m | KCreateDigest _ o, RUnit m =>
       obs_match unit_eqb o m
   | KGetDigest _ _ o, RDigest m => obs_match fp_eqb o (map_outcome (fun p => fp (snd p)) m)
@@ -146,6 +153,11 @@ Definition check (c : case) : bool :=
       let i := expand img in
       let '(f, k) := stitch l i fit acm bpm km in
       Bool.eqb k ok && (zlen f =? len_after) && zlist_eqb f (apply_diffs i diffs)
+  | CStitchP l img fit acm bpm km ok len_after diffs =>
+      let i := expand img in
+      let '(f, k) := stitch l i fit (expand acm) bpm km in
+      Bool.eqb k ok && (zlen f =? len_after) &&
+      zlist_eqb f (apply_diffs i (map (fun d => (fst d, expand (snd d))) diffs))
   | CSeq ver imgs segs0 algs0 steps =>
       run_check ver (map (fun lp => (fst lp, expand (snd lp))) imgs)
                 (mkBG segs0 (map (fun a => (a, None)) algs0)) steps
